@@ -34,6 +34,7 @@ ASSUMPTIONS = [
 CASES = {'quick': 24000, 'thorough': 260000}
 TIME = {'quick': 70, 'thorough': 540}
 MIN_NONTRIVIAL = {'quick': 1000, 'thorough': 8000}
+NO_ASSERT_SHARDS = True     # odd shards: pokerkit's asserts compiled out
 REQUIRED = ('refunds', 'side_pots', 'odd_chip_remainders', 'rake_taken',
             'terminal_states_checked', 'short_forced_bets',
             'trees_completed', 'explored_nodes',
